@@ -741,9 +741,18 @@ func c16() {
 		bad := false
 		for _, s := range res.Syscalls {
 			if name, ok := tables[c.arch][s.Num]; !ok || name != s.Name {
-				// newer syscalls than the 6.1 headers are compared with the package table only
-				if !ok && s.Num > 440 && s.Num < 1000 {
-					continue
+				// a number the vendored 6.1 headers do not list (newer syscalls: 335 uretprobe, 441...) is compared with the
+				// package's own table, which is "the architecture's table" of the statement; its agreement with independent
+				// sources is C12's subject
+				if !ok {
+					info := arch.X86_64
+					if c.arch == "i386" {
+						info = arch.I386
+					}
+					if nr, known := info.SyscallNames[s.Name]; known && nr == s.Num {
+						run.Count("reported_numbers_known_to_the_package_table_only", 1)
+						continue
+					}
 				}
 				run.Violation("reported-syscall-not-in-table", fmt.Sprintf("%s input (%s): reported syscall (%d, %q) is not in the architecture's table (oracle: %q)", c.kind, c.arch, s.Num, s.Name, name), replay)
 				bad = true
